@@ -23,7 +23,12 @@ RULE = ('T2: bytes(Date(t)), Date(t).gmtime, Date(tuple), Date(datetime), Date.p
 	'conditional header elements, evaluated by the Gallina model (vm_compute, variant chosen by the T1 probe) and by the implementation under TZ=UTC; '
 	'the implementation is additionally run under 5 further (TZ, locale) configurations and must give identical observations (oracle). '
 	'Instants: range ends, year/month/leap-day boundaries, 2^31/2^32, every daylight-saving transition 1970-2037 of the five zones +-1 h, uniform. '
-	'non-trivial = distinct (kind, UTC observation)')
+	'non-trivial = distinct (kind, UTC observation). Fourth wave (oracle on every case, model on the parts it covers): seq = Date objects built through every constructor path '
+	'(int, float, bool, the three texts as bytes/str/Date.parse, tuple and struct_time with foreign wday/yday/isdst, gmtime, naive and zone-aware datetimes, copies) used several times '
+	'(bytes, compose, str, gmtime, datetime, int, copy, re-parse, the six operators against objects, texts and integers) with neighbouring instants alive at once, each step = what a fresh object gives; '
+	'var = every name of the month/day/zone tables of the parser (read at run time) in four letter cases in each form, the re-writings other senders use (one at a time and combined), '
+	'runs of blanks of 11..65536 octets before, inside and after each form; hdr2 = every header field / parameter of the header registry that carries a Date, names in three cases, read twice, '
+	'value replaced through five public ways; degenerate texts and operands; timestamps at decimal length limits')
 EXHAUSTIVE = {'quick': False, 'thorough': False}
 TRUSTED = ['harness/tables/date.py (T1: weekday/month tables, separators and widths of Date.__compose recovered from probe instants; email._parseaddr tables; '
 	'str.isspace/isdigit/lower/int classes for U+0000-U+00FF; conversion-variant probe under TZ=Europe/Berlin)',
@@ -201,7 +206,185 @@ def impl(c):
 			e = h.element(c['name'])
 			out['eq'] = [bool(e == Date(c['t'])), bool(e == c['t']), bool(e == ref_imf(c['t'])), bool(e == Date(c['t'] + 1))]
 		return out
+	if k in ('seq', 'var', 'hdr2'):
+		return _impl4(c)
 	raise ValueError(k)
+
+
+# ---- fourth-wave kinds (classes of DESIGN.md section 8): every observation is stated against the reference writers above
+WRITERS = {'imf': ref_imf, '850': ref_850, 'asc': ref_asc}
+
+
+def _tmf(g):
+	return [g.tm_year, g.tm_mon, g.tm_mday, g.tm_hour, g.tm_min, g.tm_sec, g.tm_wday]
+
+
+def _mkobj(spec):
+	"""a Date of instant spec[1] built the way spec[0] says (every constructor path of Date.__init__)"""
+	import datetime
+	import time
+	from httoop.date import Date
+	kind, t = spec[0], spec[1]
+	if kind == 'int':
+		return Date(t)
+	if kind == 'float':
+		return Date(t + spec[2])
+	if kind == 'bool':
+		return Date(bool(t))
+	if kind in WRITERS:
+		return Date(WRITERS[kind](t))
+	if kind == 'str':
+		return Date(WRITERS[spec[2]](t).decode('ascii'))
+	if kind == 'parse':
+		return Date.parse(WRITERS[spec[2]](t))
+	if kind == 'tuple':
+		return Date(tuple(ref_civil(t)[:6]) + tuple(spec[2]))
+	if kind == 'struct':
+		return Date(time.struct_time(tuple(ref_civil(t)[:6]) + tuple(spec[2])))
+	if kind == 'gm':
+		return Date(time.gmtime(t))
+	if kind == 'dt':
+		return Date(datetime.datetime(1970, 1, 1) + datetime.timedelta(seconds=t, microseconds=spec[2]))
+	if kind == 'dtaware':
+		dt = datetime.datetime(1970, 1, 1, tzinfo=datetime.timezone.utc) + datetime.timedelta(seconds=t, microseconds=spec[3])
+		return Date(dt.astimezone(datetime.timezone(datetime.timedelta(minutes=spec[2]))))
+	if kind == 'copy':
+		return Date(Date(t))
+	raise ValueError(kind)
+
+
+def _six(a, b):
+	return [bool(a < b), bool(a > b), bool(a == b), bool(a != b), bool(a <= b), bool(a >= b)]
+
+
+def _step(objs, specs, st):
+	from httoop.date import Date
+	d = objs[st[0]]
+	op = st[1]
+	if op == 'b':
+		return bytes(d).hex()
+	if op == 'c':
+		return d.compose().hex()
+	if op == 'u':
+		return str(d)
+	if op == 'g':
+		return _tmf(d.gmtime)
+	if op == 'd':
+		dt = d.datetime
+		return [dt.year, dt.month, dt.day, dt.hour, dt.minute, dt.second, dt.weekday()]
+	if op == 'i':
+		return int(d)
+	if op == 'y':
+		e = Date(d)
+		return [bytes(e).hex(), int(e), bytes(d).hex()]
+	if op == 'p':
+		return int(Date.parse(bytes(d)))
+	if op == 'P':  # a fresh parse of another rendering of the same instant (class-level state)
+		return int(Date.parse(WRITERS[st[2]](specs[st[0]][1])))
+	if op == 'N':  # a fresh Date of the same instant, composed (class-level state)
+		return bytes(Date(specs[st[0]][1])).hex()
+	if op == 'cmp':
+		return _six(d, objs[st[2]])
+	if op == 'cmpt':
+		return _six(d, WRITERS[st[3]](specs[st[2]][1]))
+	if op == 'cmpi':
+		return _six(d, specs[st[2]][1])
+	raise ValueError(op)
+
+
+def _guard(f):
+	try:
+		return f()
+	except Exception as exc:
+		return 'exc:%s' % type(exc).__name__
+
+
+def _impl4(c):
+	from httoop.date import Date
+	k = c['k']
+	if k == 'seq':
+		try:
+			objs = [_mkobj(s) for s in c['objs']]
+		except Exception as exc:
+			return {'s': None, 'err': 'constructor: %s' % type(exc).__name__}
+		return {'s': [_guard(lambda: _step(objs, c['objs'], st)) for st in c['steps']]}
+	if k == 'var':
+		text = bytes.fromhex(c['d']) if 'd' in c else _pad_text(c)
+		out = {'r': _R(lambda: Date.parse(text)), 'r2': _R(lambda: Date(text)), 'cc': _RB(lambda: bytes(Date(text)))}
+		if all(x < 0x80 for x in text):
+			out['r3'] = _R(lambda: Date(text.decode('ascii')))
+		return out
+	if k == 'hdr2':
+		return {'s': _guard(lambda: _hdr2(c))}
+	raise ValueError(k)
+
+
+def _pad_text(c):
+	"""long texts are not shipped through the pipe: tokens + the position and length of the run of blanks"""
+	toks = c['toks']
+	gaps = [' '] * (len(toks) - 1)
+	lead = trail = ''
+	run = c['ch'] * c['n']
+	if c['pos'] == 'lead':
+		lead = run
+	elif c['pos'] == 'trail':
+		trail = run
+	else:
+		gaps[c['pos']] = run
+	return (lead + ''.join(a + b for a, b in zip(toks, gaps + [''])) + trail).encode('ascii')
+
+
+def _hdr2(c):
+	"""date-valued header elements and parameters: read twice, replace the value through the public ways, read again; the first element must keep its instant"""
+	from httoop import Headers
+	name = c['name'].encode('ascii')
+	v1, v2 = bytes.fromhex(c['v1']), bytes.fromhex(c['v2'])
+	mode = c['mode']
+	out = []
+	h = Headers()
+	if mode == 'plain':
+		h.parse(name + b': ' + v1)
+		e = h.element(c['name'])
+		out.append(int(e))
+		out.append(int(h.element(c['name'])))
+		out.append(bool(e == c['t']))
+		out.append(bool(e == c['t2']) if c['t2'] != c['t'] else False)
+		how = c['how']
+		if how == 'setitem':
+			h[c['name']] = v2
+		elif how == 'set':
+			h.set({c['name']: v2.decode('ascii')})
+		elif how == 'delparse':
+			del h[c['name']]
+			h.parse(name + b': ' + v2)
+		elif how == 'popsetdefault':
+			h.pop(c['name'])
+			h.setdefault(c['name'], v2)
+		else:
+			h.clear()
+			h.update({c['name']: v2})
+		e2 = h.element(c['name'])
+		out.append(int(e2))
+		out.append(int(e))
+		out.append(int(Headers({c['name']: v1}).element(c['name'])))
+		return out
+	pnames = ['creation-date', 'modification-date'] if mode == 'cd' else ['expires']
+	attrs = ['creation_date', 'modification_date'] if mode == 'cd' else ['expires']
+	q = (lambda v: b'"' + v + b'"') if c.get('quoted', True) else (lambda v: v)
+	pn = [p.upper() if c.get('pupper') else p for p in pnames]
+	if mode == 'cd':
+		h.parse(name + b': attachment; filename=x; ' + pn[0].encode() + b'=' + q(v1) + b'; ' + pn[1].encode() + b'=' + q(v2))
+	else:
+		h.parse(name + b': a=b; ' + pn[0].encode() + b'=' + q(v1) + b'; path=/')
+	e = h.element(c['name'])
+	for a in attrs:
+		out.append(int(getattr(e, a)))
+	for a in attrs:
+		out.append(int(getattr(e, a)))
+	e.params[pnames[0]] = v2.decode('ascii')  # the value replaced on the live element: the property must follow
+	out.append(int(getattr(e, attrs[0])))
+	out.append(int(getattr(h.element(c['name']), attrs[0])))
+	return out
 
 
 def worker_main():
@@ -567,7 +750,274 @@ def gen_cases(rng, tier):
 		s = _mutate(rng, _variant_text(rng, t))
 		if all(0x20 <= ord(ch) < 0x7f and ch not in ';"\\=' for ch in s) and _in_model(s) and s.strip(' ') == s and s:
 			cases.append({'k': 'hdr', 'name': rng.choice(['If-Modified-Since', 'If-Unmodified-Since', 'Last-Modified']), 'd': s.encode('ascii').hex()})
+	# appended last so that the cases above stay what they were for a given seed
+	cases.extend(_wave4(rng, tier, inst))
 	return cases
+
+
+# ------------------------------------------------------------------ fourth wave: the six classes of DESIGN.md section 8
+def _registries():
+	"""the tables the parse side consults (httoop.util.parsedate is email.utils.parsedate_tz: its module globals), read from
+	the working tree at run time, and the header fields whose element classes carry a Date"""
+	import httoop.header  # noqa: F401  (fills the registry)
+	from httoop.header.element import HEADER
+	from httoop.util import parsedate
+	g = getattr(parsedate, '__globals__', {})
+	import email._parseaddr as pa
+	months = list(g.get('_monthnames', pa._monthnames))
+	days = list(g.get('_daynames', pa._daynames))
+	zones = dict(g.get('_timezones', pa._timezones))
+	hdrs = []
+	for name, cls in sorted(HEADER.items()):
+		if getattr(cls, 'Date', None) is not None:
+			hdrs.append((name, 'plain' if hasattr(cls, '__int__') else 'cd' if hasattr(cls, 'creation_date') else 'cookie' if hasattr(cls, 'expires') else None))
+	return months, days, zones, [h for h in hdrs if h[1]]
+
+
+# re-writings that are NOT the same instant by the property's text (a text without zone has no instant; RFC 850 without zone is refused by parsedate_tz;
+# a day name that contradicts the date): model correspondence only, no expectation of the oracle
+NOEXP = ('no-zone', 'wrong-day-name')
+
+
+def _lc(s, mode):
+	return [s, s.lower(), s.upper(), s.swapcase()][mode]
+
+
+def _tokens(t, form, day='', mon=None, dd=None, year=None, clock=None, zone='GMT', comma=True):
+	"""tokens of a rendering of instant t; day='' default name of the form, None: no day name"""
+	y, m, d, hh, mi, ss, wd = ref_civil(t)
+	mon = MONTH[m - 1] if mon is None else mon
+	clock = '%02d:%02d:%02d' % (hh, mi, ss) if clock is None else clock
+	if form == 'imf':
+		day = DAY_NAME[wd] if day == '' else day
+		toks = [day + (',' if comma else '') if day else None, '%02d' % d if dd is None else dd, mon, '%04d' % y if year is None else year, clock, zone]
+	elif form == '850':
+		day = DAY_NAME_L[wd] if day == '' else day
+		toks = [day + (',' if comma else '') if day else None, '%s-%s-%s' % ('%02d' % d if dd is None else dd, mon, '%02d' % (y % 100) if year is None else year), clock, zone]
+	else:
+		day = DAY_NAME[wd] if day == '' else day
+		toks = [day if day else None, mon, '%d' % d if dd is None else dd, clock, '%d' % y if year is None else year, None if zone == 'GMT' else zone]
+	return [x for x in toks if x]
+
+
+def _var(t, toks, why, sep=' ', lead='', trail='', expect=True):
+	text = lead + sep.join(toks) + trail
+	return {'k': 'var', 't': t, 'd': text.encode('ascii').hex(), 'why': why, 'exp': bool(expect)}
+
+
+def _wave4(rng, tier, inst):
+	big = tier == 'thorough'
+	out = []
+	months, days, zones, hdrs = _registries()
+	in850 = [t for t in inst if t <= MAX_T_850]
+
+	def instant(form, month=None, wday=None):
+		for _ in range(2000):
+			t = rng.choice(in850) if form == '850' or rng.random() < 0.4 else rng.choice(inst)
+			if month is not None:
+				y = ref_civil(t)[0]
+				t = ref_timegm(y, month, rng.randint(1, 28), rng.randrange(24), rng.randrange(60), rng.randrange(60))
+			if wday is not None:
+				t += ((wday - ref_civil(t)[6]) % 7) * 86400
+			if 0 <= t <= (MAX_T_850 if form == '850' else MAX_T):
+				return t
+		return 784111777
+
+	forms = ['imf', '850', 'asc']
+	# (3) instants whose decimal timestamp sits at a length limit
+	for kk in range(1, 12):
+		for t in (10 ** kk - 1, 10 ** kk):
+			out.append({'k': 'rt', 't': t})
+	# (4) every name of every table the parser consults, in four letter cases, in each of the three forms
+	for i, name in enumerate(months):
+		for mode in range(4):
+			for form in forms:
+				if not big and len(name) > 3 and (mode + i + forms.index(form)) % 3:
+					continue
+				t = instant(form, month=i % 12 + 1)
+				out.append(_var(t, _tokens(t, form, mon=_lc(name.title(), mode)), 'registry:month:%s' % name))
+	for i, name in enumerate(days):
+		for mode in range(4):
+			for form in forms:
+				t = instant(form, wday=i)
+				full = DAY_NAME_L[i] if DAY_NAME_L[i].lower().startswith(name) else name
+				nm = name.title() if (mode + i) % 2 else full
+				if form == 'asc':
+					nm = name.title()  # asctime has no comma: parsedate_tz knows the day by the three-letter table only
+				out.append(_var(t, _tokens(t, form, day=_lc(nm, mode)), 'registry:day:%s' % name))
+	for name, off in sorted(zones.items()):
+		for mode in range(3):
+			for form in ['imf', '850'] if big or mode == 0 else [rng.choice(['imf', '850'])]:
+				t = instant(form)
+				# a named zone with an offset is a different instant for a reader that honours zones and the same wall clock for one that does not:
+				# the property says nothing, model correspondence only (exp False)
+				out.append(_var(t, _tokens(t, form, zone=_lc(name, mode)), 'registry:zone:%s' % name, expect=(off == 0)))
+	# date-valued header fields and parameters of the header registry (read from the tree), names in three letter cases (also class 1: values replaced)
+	hows = ['setitem', 'set', 'delparse', 'popsetdefault', 'update']
+	for name, mode in hdrs:
+		for nm in (name, name.lower(), name.upper()):
+			for f1 in forms:
+				for rep in range(3 if big else 1):
+					f2 = rng.choice(forms)
+					t = instant(f1)
+					t2 = instant(f2) if rng.random() < 0.5 else min(max(t + rng.choice([-1, 1, 60, 3600, -86400, 146097 * 86400]), 0), MAX_T_850 if f2 == '850' else MAX_T)
+					c = {'k': 'hdr2', 'name': nm, 'mode': mode, 't': t, 't2': t2, 'v1': WRITERS[f1](t).hex(), 'v2': WRITERS[f2](t2).hex()}
+					if mode == 'plain':
+						c['how'] = hows[(len(out) + rep) % len(hows)]
+					else:
+						c['quoted'] = not (mode == 'cookie' and rng.random() < 0.5)
+						c['pupper'] = rng.random() < 0.3
+					out.append(c)
+	# (6) the same instant the way another sender writes it: one deviation at a time, then combinations
+	zero_zones = sorted(z for z, off in zones.items() if off == 0) + ['+0000', '-0000']
+
+	def deviations(t, form):
+		y, m, d, hh, mi, ss, wd = ref_civil(t)
+		devs = []
+		for mode in (1, 2, 3):
+			devs.append(('day-case', dict(day=_lc(DAY_NAME_L[wd] if form == '850' else DAY_NAME[wd], mode))))
+			devs.append(('month-case', dict(mon=_lc(MONTH[m - 1], mode))))
+			devs.append(('zone-case', dict(zone=_lc('GMT', mode))))
+		devs.append(('month-full', dict(mon=FULLMON[m - 1])))
+		devs.append(('day-other-length', dict(day=DAY_NAME[wd] if form == '850' else DAY_NAME_L[wd])) if form != 'asc' else ('day-comma', dict(day=DAY_NAME[wd] + ',')))
+		if form != 'asc':
+			devs.append(('no-day-name', dict(day=None)))
+			devs.append(('no-comma', dict(comma=False, day=DAY_NAME[wd])))
+			devs.append(('no-zone', dict(zone=None)))
+		devs.append(('day-of-month-width', dict(dd='%02d' % d if form == 'asc' else '%d' % d)))
+		if form == '850':
+			devs.append(('four-digit-year', dict(year='%04d' % y)))
+		elif 1970 <= y <= 2068:
+			devs.append(('two-digit-year', dict(year='%02d' % (y % 100))))
+		for z in zero_zones:
+			devs.append(('zone-%s' % z, dict(zone=z)))
+		devs.append(('wrong-day-name', dict(day=(DAY_NAME_L if form == '850' else DAY_NAME)[(wd + 3) % 7])))  # recipients ignore the day name
+		return devs
+
+	for form in forms:
+		for rep in range(6 if big else 2):
+			t = instant(form)
+			for why, kw in deviations(t, form):
+				out.append(_var(t, _tokens(t, form, **kw), 'rewrite:%s:%s' % (form, why), expect=why not in NOEXP))
+			for sep, lead, trail, why in [('  ', '', '', 'two-blanks'), ('\t', '', '', 'tabs'), (' ', ' ', '', 'leading-blank'), (' ', '', ' ', 'trailing-blank'), (' ', '', '\r\n', 'trailing-crlf'), (' \t ', '\t', '\t', 'mixed-blanks')]:
+				out.append(_var(t, _tokens(t, form), 'rewrite:%s:%s' % (form, why), sep=sep, lead=lead, trail=trail))
+	for _ in range(2500 if big else 260):
+		form = rng.choice(forms)
+		t = instant(form)
+		kw = {}
+		devs = deviations(t, form)
+		exp = True
+		for why, k2 in rng.sample(devs, rng.randint(2, 4)):
+			kw.update(k2)
+			exp = exp and why not in NOEXP
+		if kw.get('comma') is False:  # without the comma only the three-letter name marks a day name (nobody writes the other spellings)
+			kw['day'] = DAY_NAME[ref_civil(t)[6]]
+		out.append(_var(t, _tokens(t, form, **kw), 'rewrite:%s:combination' % form, sep=rng.choice([' ', ' ', '  ', '\t']), lead=rng.choice(['', '', ' ']), trail=rng.choice(['', '', ' ']), expect=exp))
+	# comparisons between re-written operands (through the model and the oracle of the existing kind)
+	for _ in range(1500 if big else 150):
+		fa, fb = rng.choice(forms), rng.choice(forms)
+		ta = instant(fa)
+		tb = min(max(ta + rng.choice([0, 0, -1, 1, 60, -3600, 86400, 146097 * 86400, -36524 * 86400]), 0), MAX_T_850 if fb == '850' else MAX_T)
+		ka = dict(rng.choice([d for d in deviations(ta, fa) if d[0] not in NOEXP])[1])
+		kb = dict(rng.choice([d for d in deviations(tb, fb) if d[0] not in NOEXP])[1])
+		out.append({'k': 'cmp', 'a': ['dtext', ' '.join(_tokens(ta, fa, **ka)).encode('ascii').hex()], 'b': [rng.choice(['dtext', 'text']), ' '.join(_tokens(tb, fb, **kb)).encode('ascii').hex()], 'ta': ta, 'tb': tb})
+	# (3) runs of blanks of every limit length before, inside and after each form (short ones also through the model)
+	lens = [11, 12, 75, 76, 255, 256, 1023, 1024, 4095, 4096, 8190, 8191, 8192]
+	lens += [16383, 16384, 65535, 65536] if big else [65535, 65536]
+	for n in lens:
+		for form in forms:
+			t = instant(form)
+			toks = _tokens(t, form)
+			poss = ['lead', 'trail'] + (list(range(len(toks) - 1)) if big else [rng.randrange(len(toks) - 1)])
+			if n >= 65535 and not big:
+				poss = [rng.choice(poss)]
+			for pos in poss:
+				ch = '\t' if rng.random() < 0.2 else ' '
+				c = {'k': 'var', 't': t, 'toks': toks, 'pos': pos, 'n': n, 'ch': ch, 'why': 'length:%s:%s:%d' % (form, pos, n), 'exp': True}
+				if n <= 1100:
+					c['d'] = _pad_text(c).hex()
+				out.append(c)
+	# zero-padded numbers of limit lengths (int() of the parser): what a reader makes of them is the model's business only
+	for n in [11, 12, 75, 76, 150]:
+		t = instant('imf')
+		y, m, d, hh, mi, ss, wd = ref_civil(t)
+		for why, kw in [('dd', dict(dd='%0*d' % (n, d))), ('year', dict(year='%0*d' % (n, y)))]:
+			out.append({'k': 'parse', 'd': ' '.join(_tokens(t, 'imf', **kw)).encode('ascii').hex()})
+	# (5) degenerate texts, through the model; the oracle only requires that nothing but the four modelled outcomes escapes
+	deg = ['', ' ', '  ', '\t', '\r\n', ',', ',,', ', ,', ':', '::', '-', '--', '- -', '"', '""', '"""', "'", ';', ';;', ' , ', ', : -', '0', '00', ' 0 ', '+', '+0000', 'GMT', ' GMT', 'GMT GMT', ',GMT',
+		'"Sun, 06 Nov 1994 08:49:37 GMT"', '"Sun, 06 Nov 1994 08:49:37 GMT', 'Sun, 06 Nov 1994 08:49:37 GMT"', "'Sun, 06 Nov 1994 08:49:37 GMT'", '<Sun, 06 Nov 1994 08:49:37 GMT>',
+		'Sun,, 06 Nov 1994 08:49:37 GMT', 'Sun, 06  Nov  1994 08:49:37 GMT', 'Sun, 06 Nov 1994 08::49:37 GMT', 'Sun, 06 Nov 1994 08:49::37 GMT', 'Sun, 06 Nov 1994 :: GMT', 'Sun, 06 Nov 1994 : GMT',
+		'Sun, 06 Nov 1994 08:49:37 GMT GMT', 'Sun, 06 Nov 1994 08:49:37 GMT,', 'Sun, 06 Nov 1994 08:49:37, GMT', 'Sun, 06 Nov 1994 08:49:37 ,', 'Sun, 06 Nov 1994  GMT', 'Sun, 06 Nov  08:49:37 GMT',
+		'Sun, 06  1994 08:49:37 GMT', 'Sun,  Nov 1994 08:49:37 GMT', ', 06 Nov 1994 08:49:37 GMT', ',06 Nov 1994 08:49:37 GMT', 'Sun, , 06 Nov 1994 08:49:37 GMT', 'Sun, 06, Nov, 1994, 08:49:37, GMT',
+		'Sunday, 06--Nov-94 08:49:37 GMT', 'Sunday, 06-Nov--94 08:49:37 GMT', 'Sunday, --94 08:49:37 GMT', 'Sunday, -- 08:49:37 GMT', 'Sunday, 06-Nov- 08:49:37 GMT', 'Sunday, -Nov-94 08:49:37 GMT',
+		'Sunday, 06-Nov-94- 08:49:37 GMT', 'Sunday, -06-Nov-94 08:49:37 GMT', 'Sunday,, 06-Nov-94 08:49:37 GMT', 'Sunday 06-Nov-94 08:49:37', '06-Nov-94', '-Nov-', '--', '- - -', '06-Nov-94 GMT',
+		'Sun Nov  6 08:49:37', 'Sun Nov  6  1994', 'Sun Nov 08:49:37 1994', 'Sun  6 08:49:37 1994', 'Nov  6 08:49:37 1994', 'Sun Nov  6 08:49:37 1994 1994', 'Sun Sun Nov  6 08:49:37 1994',
+		'Sun Nov  6 08:49:37 1994,', 'Sun, Nov  6 08:49:37 1994', 'Sun Nov, 6 08:49:37 1994', 'Sun Nov  6, 08:49:37 1994', 'Sun Nov  6 :: 1994', 'Sun Nov  6 08:49:37 ""', 'Sun Nov  6 "08:49:37" 1994',
+		'Sun, 06 Nov 1994 08:49:37 GMT; foo', 'Sun, 06 Nov 1994 08:49:37 GMT;q=1', 'Sun, 06 Nov 1994 08:49:37 "GMT"', 'Sun, 06 Nov "1994" 08:49:37 GMT', 'Sun, "06" Nov 1994 08:49:37 GMT', '"Sun", 06 Nov 1994 08:49:37 GMT']
+	for s in deg:
+		out.append({'k': 'parse', 'd': s.encode('latin-1').hex(), 'deg': 1})
+	for s in ['', ' ', ',', '"', '""', ':', '--', ';', '0', 'GMT', '\t']:
+		for ta in (0, 1, 784111777):
+			out.append({'k': 'cmp', 'a': rng.choice([['int', ta], ['dtext', ref_imf(ta).hex()]]), 'b': ['text', s.encode().hex()]})
+	# (1) one Date object put through several uses, several objects of neighbouring instants alive at once, class-level state
+	shifts = [0, 0, 1, -1, 1, 2, 59, 60, -60, 600, 3600, -3600, 86400, -86400, 7 * 86400, 365 * 86400, 366 * 86400, 36524 * 86400, 36525 * 86400, 146097 * 86400, -146097 * 86400]
+	tails = [[0, 1, 0], [6, 366, 1], [0, 0, -1], [3, 1, 1], [0, 1, -1], [2, 59, 1]]
+	ends = [0, 1, MAX_T, MAX_T - 1, MAX_T_850, MAX_T_850 + 1, 2 ** 31 - 1, 2 ** 31, 2 ** 32, 951782400, 4107542400] * 3
+	for n in range(9000 if big else 800):
+		base = ends[n] if n < len(ends) else rng.choice(inst)
+		specs = []
+		for j in range(rng.choice([1, 2, 2, 3, 4])):
+			t = base if j == 0 else base + rng.choice(shifts)
+			if not 0 <= t <= MAX_T:
+				t = base
+			kinds = ['int', 'int', 'imf', 'asc', 'str', 'parse', 'tuple', 'struct', 'gm', 'dt', 'copy']
+			if t <= MAX_T_850:
+				kinds += ['850', '850']
+			if t < 2 ** 40:
+				kinds += ['float']
+			if 2 * 86400 <= t <= MAX_T - 2 * 86400:
+				kinds += ['dtaware', 'dtaware']
+			if t in (0, 1):
+				kinds += ['bool'] * 4
+			kd = rng.choice(kinds)
+			sp = [kd, t]
+			if kd == 'float':
+				sp.append(rng.choice([0.25, 0.5, 0.75]))
+			elif kd in ('str', 'parse'):
+				sp.append(rng.choice(forms if t <= MAX_T_850 else ['imf', 'asc']))
+			elif kd in ('tuple', 'struct'):
+				wd = ref_civil(t)[6]
+				sp.append(rng.choice(tails + [[wd, 1, 0], [wd, 200, 1]]))
+			elif kd == 'dt':
+				sp.append(rng.choice([0, 0, 1, 500000, 999999]))
+			elif kd == 'dtaware':
+				sp.append(rng.choice([0, 60, 120, -300, 330, 630, -660, 840, 765, -1]))
+				sp.append(rng.choice([0, 0, 999999]))
+			specs.append(sp)
+		steps = []
+		for _ in range(rng.randint(5, 11)):
+			i = rng.randrange(len(specs))
+			op = rng.choice(['b', 'b', 'b', 'c', 'u', 'g', 'd', 'i', 'y', 'p', 'P', 'N', 'cmp', 'cmpt', 'cmpi'])
+			if op == 'd' and specs[i][0] == 'dtaware':
+				op = 'g'  # .datetime hands the caller's own (zone-aware) object back: not a statement of the property
+			st = [i, op]
+			if op == 'P':
+				st.append(rng.choice(forms if specs[i][1] <= MAX_T_850 else ['imf', 'asc']))
+			elif op in ('cmp', 'cmpt', 'cmpi'):
+				j = rng.randrange(len(specs))
+				st.append(j)
+				if op == 'cmpt':
+					st.append(rng.choice(forms if specs[j][1] <= MAX_T_850 else ['imf', 'asc']))
+			steps.append(st)
+		for i in range(len(specs)):
+			steps.append([i, 'b'])
+		if len(specs) > 1:  # the neighbouring instants once more, as text operands and fresh parses in one form (state kept per class, keyed too coarsely)
+			fm = rng.choice(forms if max(sp[1] for sp in specs) <= MAX_T_850 else ['imf', 'asc'])
+			for i in range(len(specs)):
+				steps.append([0, 'cmpt', i, fm])
+				steps.append([i, 'P', fm])
+		out.append({'k': 'seq', 'objs': specs, 'steps': steps})
+	return out
 
 
 # ------------------------------------------------------------------ Coq literals
@@ -635,6 +1085,33 @@ def coq_case(c, o):
 	if k == 'hdr':
 		p = pres(r['r'])
 		return DISAGREE if p is None else 'CParse %s %s' % (X(bytes.fromhex(c['d'])), p)
+	if k == 'var':
+		if 'd' not in c or len(c['d']) > 2200 or not _in_model(bytes.fromhex(c['d']).decode('latin-1')):
+			return None  # long runs of blanks: oracle only
+		p = pres(r['r'])
+		if p is None or r['r2'] != r['r'] or r.get('r3', r['r']) != r['r']:
+			return DISAGREE
+		return 'CParse %s %s' % (X(bytes.fromhex(c['d'])), p)
+	if k == 'seq':
+		if r.get('s') is None:
+			return DISAGREE
+		terms = []
+		for st, x in zip(c['steps'], r['s']):
+			if isinstance(x, str) and x.startswith('exc:'):
+				return DISAGREE
+			t = c['objs'][st[0]][1]
+			op = st[1]
+			if op in ('b', 'c', 'N'):
+				terms.append('CCompose %s %s' % (Z(t), X(bytes.fromhex(x))))
+			elif op == 'g':
+				terms.append('CGmtime %s (mkTm %s)' % (Z(t), ' '.join(Z(v) for v in x)))
+			elif op == 'P':
+				terms.append('CParse %s (POk %s)' % (X(WRITERS[st[2]](t)), Z(x)))
+			elif op == 'cmpt':
+				terms.append('CCmp (DInt %s) (DText %s) (Some (mkCmps %s))' % (Z(t), X(WRITERS[st[3]](c['objs'][st[2]][1])), ' '.join(B(v) for v in x)))
+			elif op in ('cmp', 'cmpi'):
+				terms.append('CCmp (DInt %s) (DInt %s) (Some (mkCmps %s))' % (Z(t), Z(c['objs'][st[2]][1]), ' '.join(B(v) for v in x)))
+		return terms[:4]  # the oracle states every step; the model is asked about a few (cost)
 	return None
 
 
@@ -654,7 +1131,37 @@ def _describe(c):
 		return 'int(Date(datetime of instant %d))' % c['t']
 	if k == 'cmp':
 		return '[<, >, ==, !=, <=, >=] of %r and %r' % (c['a'], c['b'])
+	if k == 'var':
+		return 'Date.parse / Date(bytes) / bytes(Date(text)) / Date(str) of %s' % (_var_show(c),)
+	if k == 'seq':
+		return 'the uses %r of the Date objects %r' % (c['steps'], c['objs'])
+	if k == 'hdr2':
+		return 'the %s field carrying %r, then %r' % (c['name'], bytes.fromhex(c['v1']), bytes.fromhex(c['v2']))
 	return k
+
+
+def _var_show(c):
+	if 'd' in c:
+		return repr(bytes.fromhex(c['d']))
+	return 'the tokens %r with a run of %d %r at position %r (%s)' % (c['toks'], c['n'], c['ch'], c['pos'], c['why'])
+
+
+def _seq_want(c, st):
+	"""what a fresh object of the same instant gives for one step"""
+	t = c['objs'][st[0]][1]
+	op = st[1]
+	if op in ('b', 'c', 'N'):
+		return ref_imf(t).hex()
+	if op == 'u':
+		return ref_imf(t).decode('ascii')
+	if op in ('g', 'd'):
+		return list(ref_civil(t))
+	if op in ('i', 'p', 'P'):
+		return t
+	if op == 'y':
+		return [ref_imf(t).hex(), t, ref_imf(t).hex()]
+	tb = c['objs'][st[2]][1]
+	return [t < tb, t > tb, t == tb, t != tb, t <= tb, t >= tb]
 
 
 def _brief(r):
@@ -712,6 +1219,45 @@ def oracle(c, o):
 			want = [ta < tb, ta > tb, ta == tb, ta != tb, ta <= tb, ta >= tb]
 			if r['r'] != want:
 				return 'comparison of dates disagrees with the comparison of the instants %d and %d: [<, >, ==, !=, <=, >=] = %r' % (ta, tb, r['r'])
+		return None
+	if k == 'parse':
+		for key in ('r', 'r2'):
+			if isinstance(r[key], str) and r[key].startswith('escape:'):
+				return 'Date.parse(%r) / Date(text) lets %s escape (not InvalidDate)' % (bytes.fromhex(c['d']), r[key][7:])
+		return None
+	if k == 'var':
+		t = c['t']
+		got = [r['r'], r['r2']] + ([r['r3']] if 'r3' in r else [])
+		for x in got:
+			if isinstance(x, str) and x.startswith('escape:'):
+				return '%s lets %s escape' % (_describe(c), x[7:])
+		if not c['exp']:
+			if any(x != got[0] for x in got):
+				return '%s: Date.parse, Date(bytes) and Date(str) disagree: %r' % (_describe(c), got)
+			return None
+		if any(x != t for x in got):
+			return 'instant %d (%s) written as %s [%s] is read back as %r (Date.parse, Date(bytes), Date(str))' % (t, ref_imf(t).decode(), _var_show(c), c['why'], got)
+		if r['cc'] != ref_imf(t).hex():
+			return 'a Date built from %s [%s] is serialised as %r instead of the IMF-fixdate %r' % (_var_show(c), c['why'], r['cc'], ref_imf(t))
+		return None
+	if k == 'seq':
+		if r.get('s') is None:
+			return 'constructing the Date objects %r failed: %s' % (c['objs'], r.get('err'))
+		for n, (st, x) in enumerate(zip(c['steps'], r['s'])):
+			want = _seq_want(c, st)
+			if x != want:
+				return 'step %d %r of the uses %r of the Date objects %r gives %r; a fresh object of the same instant gives %r' % (n, st, c['steps'], c['objs'], x, want)
+		return None
+	if k == 'hdr2':
+		t, t2 = c['t'], c['t2']
+		if c['mode'] == 'plain':
+			want = [t, t, True, False, t2, t, t]
+		elif c['mode'] == 'cd':
+			want = [t, t2, t, t2, t2, t]
+		else:
+			want = [t, t, t2, t]
+		if r['s'] != want:
+			return '%s (%s): instants read [%s] = %r, required %r' % (_describe(c), c.get('how', 'parameter replaced'), c['mode'], r['s'], want)
 		return None
 	if k == 'hdr':
 		if 't' in c:
